@@ -107,6 +107,7 @@ class StmtMixin:
                 # a local list that will be filled by the code: elements default to object references
                 v = self.new_cell(s, self.empty_list(ANY), v.kind)
             for t in stmt.targets:
+                self.check_sequence_class(t, stmt.value, s)
                 self.assign_target(t, v, s)
             if isinstance(stmt.value, ast.Name) and (isinstance(v, (Cell, LVal))) and len(stmt.targets) == 1 \
                     and isinstance(stmt.targets[0], ast.Attribute):
@@ -272,6 +273,36 @@ class StmtMixin:
                 raise Unsupported("del on %r" % (base,))
             raise Unsupported("del statement")
         return [(N_, st)]
+
+    def check_sequence_class(self, target, value, st):
+        """representation obligation for fields declared with dsl.class_typed_sequence"""
+        ct = getattr(self.reg, "class_typed", None)
+        if not ct or not isinstance(target, ast.Attribute) or st.frame.spec or self.ghost_mode:
+            return
+        hits = [(c, f, a) for (c, f), a in ct.items() if f == target.attr]
+        if not hits:
+            return
+        res = []
+        self.ev(target.value, st, lambda o, s: res.append(o) or [])
+        if len(res) != 1 or not isinstance(res[0], Val) or res[0].ty[0] != "ref":
+            return
+        obj = res[0]
+        for (c, f, a) in hits:
+            if obj.ty[1] is None or not self.static_subclass_safe(obj.ty[1], c):
+                continue
+            v = value
+            if isinstance(v, ast.Call) and isinstance(v.func, ast.Attribute) and v.func.attr == a and not v.args and not v.keywords:
+                continue        # self.<attr>(): an instance of the class the policy asks for
+            # any other value (a slice, list(...), a comprehension ...) is a plain list
+            bad = []
+            for ci in [k for mod in self.repo.modules.values() for k in mod.classes.values()]:
+                e = ci.attrs.get(a)
+                if e is not None and not (isinstance(e, ast.Name) and e.id == "list") and self.static_subclass_safe(ci.name, c):
+                    bad.append(ci.name)
+            goal = z3.And(*[z3.Not(subclass(cls_of(obj.t), cls_const(n))) for n in bad]) if bad else z3.BoolVal(True)
+            self.emit(st, "type", "sequence_class[%s.%s]" % (c, f),
+                      "the value stored into %s.%s is a plain list: the receiver's class must not ask for another container class (%s = %s)"
+                      % (c, f, a, ", ".join(bad) or "-"), goal)
 
     def del_slice(self, st, base, sl):
         if sl.lower is not None or sl.step is not None or sl.upper is None:
